@@ -11,6 +11,15 @@
 // through the same counter. `A` = op line + pool size + raw trace; `R` = canonical summary of the direct monitors
 // (never raw timing) — the part before ` | ` is what the Lean model recomputes from the trace.
 // A scenario that does not finish within the watchdog's timeout terminates the process (`hang`, exit code 3).
+//
+// <size-asked> = 1000: the pool is built by the DEFAULT constructor. <type> = integer type (0: int64_t, 1: size_t, 2: int)
+// + 10 * directed mode. Directed modes use the hook as a schedule point: a worker that has just evaluated its wait
+// predicate to false (it holds the mutex and has not blocked yet) is PARKED there until
+//   bit 1: the destructor arrives (its pre_lock: it then blocks on the mutex until the worker waits; with a destructor
+//          that writes m_stop without the mutex its stop_set + notify_all pass while the worker is parked = lost wake-up),
+//   bit 2: a client arrives with a push (enqueue / map),
+// or a timeout expires. The monitor part reports how often each interleaving was reached (`d1=`, `d2=`; `d1x=`/`d2x=`:
+// the other thread got PAST the mutex while the worker was parked - impossible with the lock discipline).
 #include "common.h"
 #include <algorithm>
 #include <atomic>
@@ -37,7 +46,12 @@ constexpr int      MAXT   = 64;
 
 enum : int
 {
+    ev_pre_lock    = 0,
+    ev_push        = 3,
+    ev_notify_one  = 4,
+    ev_notify_all  = 5,
     ev_pred        = 6,
+    ev_stop_set    = 12,
     ev_call_enq    = 20,
     ev_call_map    = 21,
     ev_op_begin    = 22,
@@ -113,6 +127,12 @@ struct ctx_t
     size_t                 size{0};
     std::vector<std::unique_ptr<call_t>> calls;
     std::atomic<int>       phase{0}; // 0 construct, 1 calls, 2 destroy, 3 deferred waits, 4 done
+    // directed schedules
+    int                    dir{0};
+    std::atomic<int>       parks{0}, d1{0}, d2{0}, d1x{0}, d2x{0};
+    std::atomic<int64_t>   destroy_prelock{0}, destroy_stop{0}, destroy_notified{0}, client_prelocks{0}, client_pushes{0},
+        client_notifies{0};
+    std::atomic<bool>      parked{false}, want_park{false};
 };
 
 std::atomic<ctx_t*> g_ctx{nullptr};
@@ -174,6 +194,119 @@ inline void perturb(ctx_t* c)
     }
 }
 
+int64_t now_us()
+{
+    return std::chrono::duration_cast<std::chrono::microseconds>(std::chrono::steady_clock::now().time_since_epoch()).count();
+}
+
+// directed schedules (see the header): bookkeeping of what the client threads do + the park of a worker at pred(false)
+void directed(ctx_t* c, int event, long long a)
+{
+    const bool client = tls.tid < 10;
+    if (client)
+    {
+        const bool destroying = c->phase.load() == 2;
+        if (event == ev_pre_lock)
+        {
+            (destroying ? c->destroy_prelock : c->client_prelocks).fetch_add(1);
+        }
+        else if (event == ev_stop_set)
+        {
+            c->destroy_stop.fetch_add(1);
+            if (c->parked.load())
+            {
+                c->d1x.fetch_add(1); // m_stop written while a worker is between its predicate and its wait
+            }
+        }
+        else if (event == ev_push)
+        {
+            c->client_pushes.fetch_add(1);
+            if (c->parked.load())
+            {
+                c->d2x.fetch_add(1); // a task pushed while a worker is between its predicate and its wait
+            }
+        }
+        else if (event == ev_notify_all || event == ev_notify_one)
+        {
+            (destroying ? c->destroy_notified : c->client_notifies).fetch_add(1);
+        }
+        return;
+    }
+    if (event != ev_pred || a != 0 || (c->parks.load() >= 12 && !c->want_park.load()) || c->parks.load() >= 40)
+    {
+        return;
+    }
+    // this worker holds the mutex, its predicate was false, it has not blocked yet
+    c->parks.fetch_add(1);
+    const auto t0      = now_us();
+    const auto pre0    = c->client_prelocks.load();
+    const auto push0   = c->client_pushes.load();
+    const auto notif0  = c->client_notifies.load();
+    const auto limit   = c->want_park.load() ? 4000 : 600;
+    bool       hit     = false;
+    c->parked.store(true);
+    while (now_us() - t0 < limit)
+    {
+        if ((c->dir & 1) != 0 && c->destroy_stop.load() > 0)
+        {
+            // only without the lock discipline: let the notification pass as well, so that the wake-up is really lost
+            const auto t1 = now_us();
+            while (c->destroy_notified.load() == 0 && now_us() - t1 < 2000)
+            {
+                std::this_thread::sleep_for(std::chrono::microseconds(20));
+            }
+            hit = true;
+            break;
+        }
+        if ((c->dir & 2) != 0 && c->client_pushes.load() != push0)
+        {
+            const auto t1 = now_us();
+            while (c->client_notifies.load() == notif0 && now_us() - t1 < 2000)
+            {
+                std::this_thread::sleep_for(std::chrono::microseconds(20));
+            }
+            hit = true;
+            break;
+        }
+        if ((c->dir & 1) != 0 && c->destroy_prelock.load() > 0)
+        {
+            c->d1.fetch_add(1);
+            hit = true;
+            break;
+        }
+        if ((c->dir & 2) != 0 && c->client_prelocks.load() != pre0)
+        {
+            c->d2.fetch_add(1);
+            hit = true;
+            break;
+        }
+        std::this_thread::sleep_for(std::chrono::microseconds(20));
+    }
+    if (hit)
+    {
+        // give the other thread the time to block on the mutex (or, without the lock discipline, to finish)
+        std::this_thread::sleep_for(std::chrono::microseconds(150));
+    }
+    c->parked.store(false);
+}
+
+// directed schedules: the client makes a sleeping worker re-evaluate its predicate (a spurious wake-up) and waits until a
+// worker is parked there, so that the client's next step (push / destruction) arrives in exactly that window
+void stimulate(ctx_t* c, int64_t limit_us)
+{
+    c->want_park.store(true);
+    const auto t0 = now_us();
+    while (!c->parked.load() && now_us() - t0 < limit_us)
+    {
+        if (const auto* q = c->queue.load(); q != nullptr)
+        {
+            static_cast<const queue_t*>(q)->m_condition.notify_all();
+        }
+        std::this_thread::sleep_for(std::chrono::microseconds(40));
+    }
+    c->want_park.store(false);
+}
+
 // the observer installed into nano::verif::pool_hook()
 void hook(int event, const void* queue, long long a, long long b)
 {
@@ -192,6 +325,10 @@ void hook(int event, const void* queue, long long a, long long b)
     if (event == ev_pred && a == 0)
     {
         c->sleeps.fetch_add(1);
+    }
+    if (c->dir != 0)
+    {
+        directed(c, event, a);
     }
     perturb(c);
     if (c->spur > 0 && static_cast<int64_t>(next_rng(tls.rng) % 1000) < c->spur)
@@ -369,6 +506,10 @@ void run_program(ctx_t* c, pool_t& pool, const std::vector<call_t*>& prog, int t
 {
     for (auto* m : prog)
     {
+        if ((c->dir & 2) != 0)
+        {
+            stimulate(c, 2000);
+        }
         if (m->is_map)
         {
             switch (type)
@@ -483,9 +624,11 @@ std::string vh::execute(toks_t& t, std::string& aug)
     c->spur               = t.i64();
     c->seed               = static_cast<uint64_t>(t.i64());
     const auto predestroy = t.i64();
-    const auto type       = static_cast<int>(t.i64());
+    const auto type_dir   = t.i64();
+    const auto type       = static_cast<int>(type_dir % 10);
+    c->dir                = static_cast<int>(type_dir / 10);
     const auto S          = t.i64();
-    if (asked < 0 || asked > 64 || S < 1 || S > 8 || type < 0 || type > 2)
+    if (asked < 0 || (asked > 64 && asked != 1000) || S < 1 || S > 8 || type_dir < 0 || type > 2 || c->dir > 3)
     {
         throw bad_op("bad scenario");
     }
@@ -571,7 +714,7 @@ std::string vh::execute(toks_t& t, std::string& aug)
     g_deadline_ms.store(now_ms() + (tmo != nullptr ? std::atoll(tmo) : default_timeout_ms));
 
     {
-        auto pool = std::make_unique<pool_t>(static_cast<size_t>(asked));
+        auto pool = asked == 1000 ? std::make_unique<pool_t>() : std::make_unique<pool_t>(static_cast<size_t>(asked));
         c->size   = pool->size();
         c->phase.store(1);
         if (S == 1)
@@ -605,6 +748,10 @@ std::string vh::execute(toks_t& t, std::string& aug)
         {
             std::this_thread::sleep_for(std::chrono::microseconds(predestroy));
         }
+        if ((c->dir & 1) != 0)
+        {
+            stimulate(c, 5000);
+        }
         c->phase.store(2);
         plog(ev_call_destroy, 0, 0);
         pool.reset();
@@ -626,7 +773,7 @@ std::string vh::execute(toks_t& t, std::string& aug)
     const auto nev = c->seq.load();
     {
         std::string s = aug;
-        s += " size " + std::to_string(c->size);
+        s += " size " + std::to_string(c->size) + " max " + std::to_string(pool_t::max_size());
         if (nev > CAP)
         {
             s += " notrace";
@@ -667,9 +814,10 @@ std::string vh::execute(toks_t& t, std::string& aug)
     os << "ok size=" << c->size << " calls=" << c->calls.size() << " queued=" << queued << " execs=" << execs
        << " dropped=" << (queued - ran_queued) << " maxtnum=" << (maxtnum < 0 ? std::string("-") : std::to_string(maxtnum))
        << " workers=" << __builtin_popcountll(c->tmask.load()) << " res=" << (res.empty() ? "none" : res)
-       << " path=1 lock=1 quiet=1";
+       << " path=1 lock=1 quiet=1 mon=1 szok=1";
     os << " | maxsize=" << pool_t::max_size() << " sleeps=" << c->sleeps.load() << " spur=" << c->spurs.load()
-       << " qmis=" << c->qmis.load() << " events=" << nev;
+       << " qmis=" << c->qmis.load() << " events=" << nev << " parks=" << c->parks.load() << " d1=" << c->d1.load()
+       << " d2=" << c->d2.load() << " d1x=" << c->d1x.load() << " d2x=" << c->d2x.load();
     for (const auto& m : c->calls)
     {
         os << " ; c" << m->id << ' ' << (m->is_map ? "m" : "e") << " nops=" << m->nops << " inv=" << m->inv.load()
